@@ -5,6 +5,7 @@
 #include "node_access.hpp"
 
 #include <map>
+#include <sys/socket.h>
 
 namespace verif {
 const PropertyInfo kInfo = {
@@ -14,7 +15,7 @@ const PropertyInfo kInfo = {
     "valid key + wrong nonce, nonce solved for another responder, exact replay of the previous handshake, random key/nonce; spacing before each from {0, 1ms, cooldown-1ns, "
     "cooldown, cooldown+1ns, 3*cooldown}. Oracle: accepted <=> 1 < key < p and the reference PoW (OpenSSL SHA-256 over be64-length-prefixed claimed id, node id, be64 key, "
     "be64 nonce) has >= difficulty leading zero bits; on acceptance the returned and registered session key equals the reference derivation for (node scalar, offered key) and "
-    "the ACK carries the OpenSSL HMAC under that key; on rejection the claimed peer's key, every other peer's key and the session table are unchanged and the claimed "
+    "the ACK carries the OpenSSL HMAC under that key (one case in four travels over a real inbound connection and the ACK frame is decrypted from the wire); on rejection the claimed peer's key, every other peer's key and the session table are unchanged and the claimed "
     "peer's reputation is strictly lower (or already at the floor -100). Non-trivial: a rejected handshake after an accepted one for the same claimed peer inside the cooldown."};
 
 namespace {
@@ -79,6 +80,8 @@ void run_case(Ctx& c) {
     struct Last { bool any = false; std::uint32_t pub = 0; std::uint64_t nonce = 0; bool accepted = false; std::chrono::steady_clock::time_point at{}; };
     Last last[3];
     std::map<int, std::optional<std::array<std::uint8_t, 32>>> keys;
+    std::vector<int> open_fds;
+    struct CloseAll { std::vector<int>& fds; Node& n; ~CloseAll() { for (int fd : fds) ::close(fd); for (int i = 0; i < 5000 && n.connected_peer_count() > 0; ++i) std::this_thread::sleep_for(std::chrono::microseconds(200)); } } close_all{open_fds, node};
 
     for (std::size_t i = 0; i < t.nrec(); ++i) {
         Rec r = t.r(i);
@@ -154,8 +157,49 @@ void run_case(Ctx& c) {
         payload.public_identity = pub;
         payload.work_nonce = nonce;
         payload.requested_version = static_cast<std::uint8_t>(1 + r.a(5) % 5);
-        auto acc = vnode::Access::handle_transport_handshake(node, claimed[p], payload);
-        const bool accepted = acc.has_value() && acc->accepted;
+        // one case in four goes through a real inbound connection (identity + length-prefixed handshake frame on a
+        // socketpair adopted by the session manager): the ACK is then read from the wire and decrypted by the harness
+        const bool via_socket = (r.a(6) & 3) == 0;
+        std::optional<network::SessionManager::HandshakeAcceptance> acc;
+        bool accepted = false;
+        if (!via_socket) {
+            acc = vnode::Access::handle_transport_handshake(node, claimed[p], payload);
+            accepted = acc.has_value() && acc->accepted;
+        } else {
+            c.label("via_inbound_socket");
+            int sv[2];
+            if (::socketpair(AF_UNIX, SOCK_STREAM, 0, sv) != 0) c.fail("C20:harness-error", "socketpair failed");
+            protocol::Message hs{};
+            hs.type = protocol::MessageType::TransportHandshake;
+            hs.payload = payload;
+            auto enc = protocol::encode(hs);
+            std::vector<std::uint8_t> wire(claimed[p].begin(), claimed[p].end());
+            std::uint32_t len = static_cast<std::uint32_t>(enc.size());
+            for (int sh = 24; sh >= 0; sh -= 8) wire.push_back(static_cast<std::uint8_t>(len >> sh));
+            wire.insert(wire.end(), enc.begin(), enc.end());
+            (void)!::send(sv[0], wire.data(), wire.size(), MSG_NOSIGNAL);
+            accepted = vnode::Access::sessions(node).adopt_inbound_socket(static_cast<network::SessionManager::SocketHandle>(sv[1]));
+            ::fcntl(sv[0], F_SETFL, ::fcntl(sv[0], F_GETFL, 0) | O_NONBLOCK);
+            std::vector<std::uint8_t> in;
+            std::uint8_t buf[4096];
+            for (;;) { ssize_t n = ::recv(sv[0], buf, sizeof buf, 0); if (n <= 0) break; in.insert(in.end(), buf, buf + n); }
+            if (accepted) {
+                if (!node.connected_peer_count()) c.fail("C20:accepted-without-session", "an acknowledged handshake did not register a session for the claimed peer");
+                if (in.size() < 16) c.fail("C20:ack-malformed", "no ACK frame on the wire after an accepted handshake");
+                std::uint32_t alen = (std::uint32_t(in[12]) << 24) | (std::uint32_t(in[13]) << 16) | (std::uint32_t(in[14]) << 8) | in[15];
+                if (in.size() < 16 + alen) c.fail("C20:ack-malformed", "truncated ACK frame");
+                auto want = ref_session_key(node_scalar, node_public, pub);
+                network::SessionManager::HandshakeAcceptance a{};
+                a.accepted = true;
+                a.session_key = node.session_key(claimed[p]).value_or(std::array<std::uint8_t, 32>{});
+                a.ack_payload = refs::chacha20(want.data(), in.data(), 0, in.data() + 16, alen);  // decrypt under the REFERENCE key
+                acc = a;
+                open_fds.push_back(sv[0]);
+            } else {
+                if (!in.empty()) c.fail("C20:bytes-sent-on-rejected-handshake", "the node wrote " + std::to_string(in.size()) + " bytes to a connection whose handshake it rejected");
+                ::close(sv[0]);
+            }
+        }
 
         if (!expect) {
             if (inside_cooldown_after_accept) c.nt("rejected_after_accept_inside_cooldown");
